@@ -635,8 +635,12 @@ def oneLine (s : String) : String :=
   " ".intercalate ((s.splitOn "\n").map fun l => (l.dropWhile (· == ' ')).toString)
 
 def step1 (st : St) (op : List String) (obs : Json) : St × String :=
-  let (st', v) := step st op obs
-  (st', oneLine v)
+  let ret := jstr (jget obs "ret")
+  if ret.startsWith "PANIC" then (st, oneLine s!"FAIL oracle no_panic {ret}")
+  else if ret == "dead" then (st, "ok " ++ op.headD "?" ++ ":trivial-after-panic")
+  else
+    let (st', v) := step st op obs
+    (st', oneLine v)
 
 def main : IO Unit := do
   let stdin ← IO.getStdin
